@@ -34,18 +34,22 @@ Lossless(input, toks) == LosslessFails(input, toks) = ""
 
 (* ---- options (C15) ---- *)
 \* o is a set of option names
-IsQuoteTok(kind, b) == b[1] = TQuoted \/ (kind \in {"expression", "expression-custom"} /\ b[1] = TWord /\ b[2] # <<>> /\ b[2][1] = 34)
-QState(kind) == IF kind \in {"expression", "expression-custom"} THEN "expression" ELSE IF kind \in {"csv", "csv-wide"} THEN "csv" ELSE "generic"
-MustDrop(o, b) == \/ b[1] = TUnknown /\ "skipUnknown" \in o
-                  \/ b[1] = TComment /\ "skipComments" \in o
-                  \/ b[1] = TEof /\ "skipEof" \in o
-MayDrop(o, b) == MustDrop(o, b) \/ (b[1] = TWhitespace /\ "skipWhitespaces" \in o)
 \* the characters that a tokenizer configuration hands to a quote state
 QuoteChars(kind) == CASE kind \in {"csv"} -> {34}
                       [] kind = "csv-wide" -> {34, 171}
                       [] kind = "generic-quotes" -> {34, 39, 171, 8220}
                       [] kind = "generic-2quotes" -> {34, 39, 96}
                       [] OTHER -> {34, 39}
+\* a token that a quote state has read: it begins with one of the tokenizer's quote characters and carries the type quote states
+\* give (Quoted; Word for a quoted identifier of the expression language). A registered SYMBOL that happens to carry the Quoted
+\* type is a symbol.
+IsQuoteTok(kind, b) == b[2] # <<>> /\ b[2][1] \in QuoteChars(kind)
+                       /\ (b[1] = TQuoted \/ (kind \in {"expression", "expression-custom"} /\ b[1] = TWord /\ b[2][1] = 34))
+QState(kind) == IF kind \in {"expression", "expression-custom"} THEN "expression" ELSE IF kind \in {"csv", "csv-wide"} THEN "csv" ELSE "generic"
+MustDrop(o, b) == \/ b[1] = TUnknown /\ "skipUnknown" \in o
+                  \/ b[1] = TComment /\ "skipComments" \in o
+                  \/ b[1] = TEof /\ "skipEof" \in o
+MayDrop(o, b) == MustDrop(o, b) \/ (b[1] = TWhitespace /\ "skipWhitespaces" \in o)
 \* "Tokens read by the quote state carry their decoded value": what type a quote state gives a token it has read is its own
 \* business (Quoted; Word for a quoted identifier; a state may type an unterminated literal differently). A token that the
 \* option-free stream starts with a quote character and that is not typed as a quote token above may therefore appear decoded
